@@ -379,6 +379,70 @@ def run_full_case(seed, idx, rec):
     rec.count('evaluations')
     rec.seen(('full', list(cas['shape']), len(cas['others']),
               cas['specials'], verdicts))
+    if idx % 3 == 0:
+        second_evaluation(cas, bonf, holm, b_res, h_res, verdicts, rec, case,
+                          tag)
+
+
+def second_evaluation(cas, bonf, holm, b_res, h_res, verdicts, rec, case,
+                      tag):
+    '''The same test objects evaluate other data of the same shape: the new
+    results follow the new data, the results obtained before are still what
+    they were.'''
+    # pylint: disable=too-many-arguments,too-many-locals
+    import copy
+    from vf.props import c05
+
+    def snap(res):
+        return ([np.asarray(r).ravel().tolist()
+                 for r in res.rejected_null_hyp],
+                [int(n) for n in res.nb_rejected], bool(res))
+    before = snap(b_res), snap(h_res)
+    cas2 = copy.deepcopy(cas)
+    ref_v, ref_e = (np.array(x, dtype=float) for x in cas2['ref'])
+    for k, (o_v, o_e) in enumerate(cas2['others']):
+        o_e = np.array(o_e, dtype=float)
+        if verdicts[2]:
+            # nothing was flagged: now everything differs a lot
+            o_v = ref_v + 40.0 * (np.nan_to_num(ref_e, posinf=1.0)
+                                  + np.nan_to_num(o_e, posinf=1.0) + 1.0)
+        else:
+            o_v = ref_v.copy()
+            o_e = np.where(np.isfinite(o_e) & (o_e > 0), o_e, 1.0)
+        cas2['others'][k] = [o_v, o_e]
+    with np.errstate(all='ignore'):
+        try:
+            bonf.test = c05.build(cas2)
+            holm.test = c05.build(cas2)
+            b_2, h_2 = bonf.evaluate(), holm.evaluate()
+            s_2 = c05.build(cas2).evaluate()
+        except Exception as err:  # pylint: disable=broad-except
+            rec.violation('second-evaluation-raised-' + type(err).__name__,
+                          f'{tag}: {err!r}', case)
+            return
+    rec.count('second_evaluations')
+    if (snap(b_res), snap(h_res)) != before:
+        rec.violation('earlier-result-changed-by-a-later-evaluation',
+                      f'{tag}: flags / counts / verdict of the first results '
+                      f'were {before}, now {(snap(b_res), snap(h_res))}',
+                      case)
+    per_bin = float(bonf.bonf_signi_level)
+    for k in range(len(cas2['others'])):
+        flat = np.asarray(s_2.pvalue[k], dtype=float).ravel().tolist()
+        exp_b = ref_bonferroni(flat, per_bin)
+        got_b = [bool(x) for x in
+                 np.asarray(b_2.rejected_null_hyp[k]).ravel().tolist()]
+        near = [abs(p - per_bin) <= 1e-12 * per_bin for p in flat]
+        if any(g != e for g, e, n in zip(got_b, exp_b, near) if not n):
+            rec.violation('second-evaluation-bonferroni-flag',
+                          f'{tag}: dataset {k}: {got_b} expected {exp_b}',
+                          case)
+        got_h = [bool(x) for x in
+                 np.asarray(h_2.rejected_null_hyp[k]).ravel().tolist()]
+        if sum(got_h) < sum(e for e, n in zip(exp_b, near) if not n):
+            rec.violation('second-evaluation-holm-flag', f'{tag}: dataset '
+                          f'{k}: Holm flags {sum(got_h)} bins, Bonferroni '
+                          f'{sum(exp_b)}', case)
 
 
 def run(spec, rec):
